@@ -94,6 +94,10 @@ def linearisations(events, limit=5000):
     if n == 0:
         yield []
         return
+    srt = sorted(evs, key=lambda e: e["call"])
+    if all(srt[i]["ret"] is not None and srt[i]["ret"] < srt[i + 1]["call"] for i in range(n - 1)):
+        yield srt  # fully sequential: exactly one linearisation
+        return
     before = [[evs[i]["ret"] is not None and evs[i]["ret"] < evs[j]["call"] for j in range(n)] for i in range(n)]
     count = [0]
 
@@ -130,6 +134,7 @@ def concurrent(events):
 
 def run(case, expr):
     prog = build_prog(case, expr)
-    c = {"prog": prog, "tape": case.get("tape", []), "clock": case.get("clock", "exact"), "max_steps": 60000}
+    c = {"prog": prog, "tape": case.get("tape", []), "clock": case.get("clock", "exact"),
+         "max_steps": case.get("max_steps", 60000)}
     s, w = progs.run_case(c)
     return s, w, observe(case, s, w)
